@@ -41,7 +41,6 @@ THEOREMS = [
     "NfcVerif.C12.isodep_terminates_activated",
     "NfcVerif.C12.isodep_absorbs",
     "NfcVerif.C12.isodep_absorbs_bound_tight",
-    "NfcVerif.C12.isodep_absorbs_before_0010",
     "NfcVerif.C12.isodep_block_bound",
     "NfcVerif.C12.isodep_block_bound_derived",
     "NfcVerif.C12.isodep_block_bound_any_card",
@@ -162,7 +161,8 @@ def judge_wire(ck, air, n_retry, lim, replay):
     answers it got (no model, no look at the initiator's state):
       (a) S(WTX): a multiplier outside 1..59 is never granted; the multipliers granted while one block is outstanding
           sum up to at most `lim`;
-      (b) one retry loop (the same I-block / R(ACK), R(NAK) in between) has at most n_retry + 1 rounds;
+      (b) one retry loop (the same I-block / R(ACK), R(NAK) in between) has at most n_retry + 2 rounds (n_retry + 1 of
+          them can end in a timeout / transmission error, one more is the retransmission after R(ACK));
       (c) response chaining: R(ACK) is only sent after a chained block that carried INF, and while the response
           collected so far has at most 65538 octets."""
     marks = set(getattr(air, "marks", []))
@@ -203,7 +203,7 @@ def judge_wire(ck, air, n_retry, lim, replay):
                                 "collected" % (i, acc), replay)
                         return
                 run_first, run_len = out, 1
-            if run_len > n_retry + 1:
+            if run_len > n_retry + 2:
                 ck.fail("isodep-retransmit-unlimited", "block %s sent %d times (with R(NAK) rounds) in one retry loop, budget %d "
                         "(block %d)" % (run_first.hex(), run_len, n_retry, i), replay)
                 return
@@ -253,7 +253,7 @@ def run(ck):
         "at-most-once / exact-response / absorbed-faults theorems; termination, the frame bound, the error kinds, the block "
         "sizes and 'once failed, always failed' hold for every card whatsoever",
         "absorbed faults additionally: S(WTX) multiplier 1..59, at most W requests per block with W * WTXM <= max_wtxm_sum, "
-        "non-empty chained response blocks, response of at most 65539 octets (CardOk); 2k <= n_retry",
+        "non-empty chained response blocks, response of at most 65539 octets (CardOk); 2k <= n_retry + 1",
         "clf.exchange reports a lost block as TimeoutError, a corrupted one as TransmissionError (the card stays mute on a "
         "corrupted block), and may raise ProtocolError or return an empty frame",
         "a session starts with an activation (PCD block number 0, PICC block number 1); nothing is assumed about how "
@@ -363,10 +363,10 @@ def run(ck):
         m = cfg.wtxm & 0x3F
         card_ok = (max(cfg.wtx) == 0 or (1 <= m <= 59 and max(cfg.wtx) * m <= lim)) and cfg.rlen + len(cfg.sw) <= 65539
         n_retry = min(dep.n_retry_nak, dep.n_retry_ack)
-        # absorbed faults: k errors in one exchange need 2k <= n_retry (a block lost on its way to the card costs the
-        # R(NAK) and the retransmission after R(ACK), both are counted since fixes/C08/0010)
+        # absorbed faults: k errors in one exchange need 2k - 1 <= n_retry (a block lost on its way to the card costs the
+        # R(NAK) and the retransmission after R(ACK); the retransmission is always made)
         if len(cmds) == 1 and cmds[0] and "p" not in used and card_ok \
-                and 2 * air.faults_used <= n_retry and not results[0].startswith("ok"):
+                and 2 * air.faults_used <= n_retry + 1 and not results[0].startswith("ok"):
             key = ("isodep-wtx-raw-exception" if card.wtx_sent > 0 and not results[0].startswith("exc TagCommandError") else
                    "isodep-wtx-response-chain" if air.faults_used == 0 and card.wtx_sent > 0 and cfg.wtx[2] > 0 else
                    "isodep-not-absorbed")
@@ -419,7 +419,7 @@ def run(ck):
             n, lim = min(int(1 / fwt), 5), wlim_spec(fwi)
             card = sims.CycleCard(prefix, cycle)
             # interaction budget: four times what one retry loop can need, per command, and room for 300 loops
-            air = sims.Air(card, script, 256, 256, cap=len(cmds) * 4 * (n + 1) * (lim + 2) + 1500 * (n + 2))
+            air = sims.Air(card, script, 256, 256, cap=len(cmds) * 4 * (n + 2) * (lim + 2) + 1500 * (n + 2))
             if kind == "A":
                 air.ats = bytes([5, 0x70 | fsci, 0x80, (fwi << 4), 0x02])
                 tag = tt4.Type4ATag(air, nfc.clf.RemoteTarget("106A", sens_res=bytearray(b"\x44\x03"), sel_res=bytearray(b"\x20"),
@@ -449,7 +449,7 @@ def run(ck):
                             else "chained response blocks" if last[:1] and last[0] & 0xFE == 0xA2 else "its answers")
                     ck.fail("isodep-endless-exchange", "transceive(%s) had not returned after %d block exchanges (budget: 4 x the %d "
                             "blocks one retry loop may need + room for 1500 loops): the card keeps the reader busy with %s for ever"
-                            % ("None" if c is None else bytes(c).hex(), air.cap, (n + 1) * (lim + 1), what), replay)
+                            % ("None" if c is None else bytes(c).hex(), air.cap, (n + 2) * (lim + 1), what), replay)
                     return
                 if r.startswith("ret "):
                     ck.fail("isodep-bad-return", "transceive returned %s" % r[4:], replay)
@@ -542,14 +542,6 @@ def run(ck):
         cmds = [None if rng.random() < 0.15 else make_cmd(rng, rng.choice([1, 5, 13, 14, 30]), 0xA0 + j) for j in range(ncmd)]
         script = "".join(rng.choice(KINDS) if rng.random() < 0.1 else "d" for _ in range(rng.randrange(0, 12))).rstrip("d")
         flood(rng.choice("AB"), rng.choice([0, 0, 2, 8]), fwi, script, prefix, cycle, cmds, "random card with a cycle")
-
-    # open finding (side effect of fixes/C08/0010): with a retry budget of 1 a command block that is lost on its way to the
-    # card is not recovered - R(NAK) is answered by R(ACK) and the retransmission would be count 2
-    r = one(Cfg("A", 8, 11, 256, 256, 253, (0, 0, 0), 1, 4), "l", [b"\x00\xb0\x00\x00\x04"], "witness")
-    if r is not None and not r[2][0].startswith("ok"):
-        ck.fail("isodep-lost-block-not-absorbed-with-budget-1", "FWI 11 (one retry), the I-block is lost once and nothing else happens: "
-                "%s, blocks sent %s" % (r[2][0], [b.hex() for b, _ in r[0].trace]),
-                {"config": "Type 4A, FSCI 8, FWI 11", "script": "l", "commands": ["00b0000004"]})
 
     # ------------------------------------------------------------------ activation parameters (exhaustive)
     act_reqs = []
@@ -881,7 +873,7 @@ def run(ck):
     ck.notes.append("%d scripts from the exhaustive enumerations (all placements of <= 2 or <= 3 faults over the legs of "
                     "exchanges of <= 5 blocks and of sessions of 3-5 operations with presence checks, see distribution)" % nex)
     ck.notes.append("wire-level bounds (judge_wire) are checked on every run of every family: S(WTX) multiplier 1..59 and sum per "
-                    "block <= 59 * 2^(14-FWI), at most n_retry + 1 rounds per retry loop, R(ACK) only after a chained block with INF "
+                    "block <= 59 * 2^(14-FWI), at most n_retry + 2 rounds per retry loop, R(ACK) only after a chained block with INF "
                     "and while <= 65538 response octets are collected; interaction budget (SimLimit) for the cards that never stop")
     ck.notes.append("transceive(b'') raises UnboundLocalError (no block is sent); an empty string is not a command APDU, "
                     "the case is compared with the model but not judged by the oracle")
